@@ -5007,26 +5007,31 @@ class NetCDFWrite(IOWrite):
             for ef in effective_fields:  # i.e original fields
                 if "featureType" in ef.nc_global_attributes():
                     original_ft = ef.nc_global_attributes()["featureType"]
+                    if original_ft is None:
+                        # The value of the global attribute is held
+                        # by the property
+                        original_ft = ef.get_property("featureType", None)
             for f in fields:  # i.e. fields to be appended
-                if (
-                    "featureType" in f.nc_global_attributes()
-                    and f.nc_global_attributes()["featureType"] is not None
-                ):
-                    appended_fields_fts.append(
-                        f.nc_global_attributes()["featureType"]
-                    )
+                ft = f.nc_global_attributes().get("featureType")
+                if ft is None:
+                    # A featureType property is always a candidate
+                    # global attribute
+                    ft = f.get_property("featureType", None)
+
+                if ft is not None:
+                    appended_fields_fts.append(ft)
             # Incompatible if: 1) the appended fields have more than one
             # FT between them, 2) the original FT is not appropriate for
             # all appended fields, or 3) there is no original FT but one
             # or more across all appended fields.
             if (
-                len(appended_fields_fts) > 1
+                len(set(appended_fields_fts)) > 1
                 or (
-                    len(appended_fields_fts) == 1
+                    appended_fields_fts
                     and original_ft is not False
                     and original_ft != appended_fields_fts[0]
                 )
-                or (appended_fields_fts and original_ft is not False)
+                or (appended_fields_fts and original_ft is False)
             ):
                 raise ValueError(
                     "Can't append fields with an incompatible 'featureType' "
